@@ -561,6 +561,16 @@ func registerIntrinsics(ex *Executor) {
 	I["(time.Time).UnixNano"] = func(ex *Executor, st *State, cc *CallCtx, args []Val) (Val, ctl) {
 		return args[0].(*smt.Term), cNext
 	}
+	I["(time.Time).Unix"] = func(ex *Executor, st *State, cc *CallCtx, args []Val) (Val, ctl) {
+		// whole seconds since the epoch, rounded down (instants are integers of nanoseconds)
+		return smt.Div(args[0].(*smt.Term), smt.IntC(1000000000)), cNext
+	}
+	I["(time.Time).UnixMilli"] = func(ex *Executor, st *State, cc *CallCtx, args []Val) (Val, ctl) {
+		return smt.Div(args[0].(*smt.Term), smt.IntC(1000000)), cNext
+	}
+	I["(time.Time).UnixMicro"] = func(ex *Executor, st *State, cc *CallCtx, args []Val) (Val, ctl) {
+		return smt.Div(args[0].(*smt.Term), smt.IntC(1000)), cNext
+	}
 	I["(time.Time).UTC"] = func(ex *Executor, st *State, cc *CallCtx, args []Val) (Val, ctl) {
 		return args[0], cNext
 	}
